@@ -55,6 +55,13 @@ trait MacroSeq {
     fn seq(&self, #[path(encoder = conjure_http::client::DisplaySeqEncoder)] p: &[String], #[query(name = "tag", encoder = conjure_http::client::DisplaySeqEncoder)] tags: &[String], #[query(name = "one")] one: &str) -> Result<(), conjure_error::Error>;
 }
 
+/// path arguments declared in another order than the template names them, one of them renamed
+#[conjure_http::conjure_client]
+trait MacroOrder {
+    #[endpoint(method = GET, path = "/o/{first}/mid/{second}/{third}")]
+    fn order(&self, #[path] third: &str, #[path(name = "first")] a: &str, #[path] second: &str) -> Result<(), conjure_error::Error>;
+}
+
 #[derive(Clone, Default)]
 struct UriCapture(std::sync::Arc<std::sync::Mutex<Option<http::Uri>>>);
 
@@ -102,6 +109,15 @@ fn run_real(pushes: &[Push], variant: u8) -> Result<RealOut, String> {
             c.weird(p, vals[0], vals[1], vals[2], vals[3], vals[4]).expect("macro client call");
             let u = cap.0.lock().unwrap().clone();
             u
+        } else if variant == 11 {
+            use conjure_http::client::Service;
+            let cap = UriCapture::default();
+            let c = MacroOrderClient::new(cap.clone());
+            let ps: Vec<String> = pushes.iter().filter_map(|p| if let Push::Path(v) = p { Some(v.clone()) } else { None }).collect();
+            // template order is first, second, third; the method takes (third, first, second)
+            c.order(&ps[2], &ps[0], &ps[1]).expect("macro client call");
+            let u = cap.0.lock().unwrap().clone();
+            u
         } else if variant == 10 {
             use conjure_http::client::Service;
             let cap = UriCapture::default();
@@ -143,6 +159,13 @@ fn run_real(pushes: &[Push], variant: u8) -> Result<RealOut, String> {
             Some(u) => u,
             None => b.build(),
         };
+        read_back(uri)
+    })
+}
+
+/// what the server-side functions make of a URI: the raw segments split and decoded, the query pairs grouped by key
+fn read_back(uri: http::Uri) -> RealOut {
+    {
         let rt = ConjureRuntime::new();
         let mut segs = vec![];
         let mut seg_txt = vec![];
@@ -203,7 +226,7 @@ fn run_real(pushes: &[Push], variant: u8) -> Result<RealOut, String> {
             pair_txt.into_iter().map(|p| p.1).collect::<Vec<_>>().join("&")
         );
         RealOut { line, segs, pairs, decoders, path_and_query: uri.path_and_query().map(|p| p.as_str().to_string()).unwrap_or_default() }
-    })
+    }
 }
 
 fn op_line(pushes: &[Push], variant: u8) -> String {
@@ -334,6 +357,13 @@ pub fn cases(seed: u64, tier: Tier) -> Cases {
         pushes.push(Push::Query("one".to_string(), if i % 3 == 0 { String::new() } else { v.clone() }));
         one(&mut cs, "macro-client:/s/{p..}/x?tag..&one", &pushes, 10, true);
     }
+    // a `#[conjure_client]` method whose path arguments are declared in another order than the template names them
+    for (i, a) in alpha.iter().enumerate() {
+        let v: String = [*a, 'q'].iter().collect();
+        let w = alpha[(i * 5 + 1) % alpha.len()].to_string();
+        let pushes = vec![Push::Lit("/o".to_string()), Push::Path(v.clone()), Push::Lit("/mid".to_string()), Push::Path(w.clone()), Push::Path(format!("3{}", v))];
+        one(&mut cs, "macro-client:/o/{first}/mid/{second}/{third}", &pushes, 11, true);
+    }
     // empty values
     for (name, t) in templates("", "") {
         one(&mut cs, name, &t, 0, true);
@@ -359,7 +389,184 @@ pub fn cases(seed: u64, tier: Tier) -> Cases {
     // which argument the generated client pushes for each `{name}` of the template, and under which query key: the
     // generated source for seeded definitions against Model/Emit.lean
     crate::ops::emit::add(&mut cs, &mut rng, tier);
+    // what `#[conjure_client]` derives from a template, against Model/MacroEmit.lean
+    macro_template_cases(&mut cs, &mut rng, tier, true);
     cs
+}
+
+
+/// `#[conjure_client]` traits over a spread of templates: every path and query argument a sequence, so any number of
+/// texts can be supplied for it.  (name in the template, order of declaration) vary independently.
+macro_rules! mt {
+    ($tr:ident, $path:tt, [$($p:ident = $pn:tt),*], [$($q:ident = $qk:tt),*]) => {
+        #[conjure_http::conjure_client]
+        trait $tr {
+            #[endpoint(method = GET, path = $path)]
+            fn call(&self, $(#[path(name = $pn, encoder = conjure_http::client::DisplaySeqEncoder)] $p: &[String],)* $(#[query(name = $qk, encoder = conjure_http::client::DisplaySeqEncoder)] $q: &[String],)*) -> Result<(), conjure_error::Error>;
+        }
+    };
+}
+mt!(Mt0, "/a/{x}/b", [x = "x"], []);
+mt!(Mt1, "/{x}/{y}", [y = "y", x = "x"], [k = "k"]);
+mt!(Mt2, "/a b/c%d/{x}/e&f/g", [x = "x"], [k = "a b", l = "w+k&=%"]);
+mt!(Mt3, "", [], [k = "k", l = "\u{e9}", m = "k"]);
+mt!(Mt4, "/only/literals/here", [], []);
+mt!(Mt5, "/{x}", [x = "x"], [k = ""]);
+mt!(Mt6, "/a//b/{x}", [x = "x"], []);
+mt!(Mt7, "/{/{x}/}/{", [x = "x"], []);
+mt!(Mt8, "/\u{e9}/{x}/\u{fc}?#", [x = "x"], [k = "?#"]);
+mt!(Mt9, "/a/{x}/b/{y}/c/d/{z}/e", [z = "z", x = "x", y = "y"], [k = "k", l = "l"]);
+mt!(Mt10, "/{x:.+}/q", [x = "x:.+"], []);
+mt!(Mt11, "/p/{}/x}{y/t", [e = ""], []);
+mt!(Mt12, "/r/{x}/s/x", [x = "x"], [k = "x"]);
+
+struct MacroTemplate {
+    path: &'static str,
+    path_args: &'static [&'static str],
+    query_args: &'static [&'static str],
+    call: fn(&UriCapture, &[Vec<String>]) -> Result<(), conjure_error::Error>,
+}
+
+macro_rules! mtc {
+    ($cl:ident, $path:tt, [$($pn:tt),*], [$($qk:tt),*]) => {
+        MacroTemplate {
+            path: $path,
+            path_args: &[$($pn),*],
+            query_args: &[$($qk),*],
+            call: |cap, vals| {
+                let c = <$cl<UriCapture> as conjure_http::client::Service<UriCapture>>::new(cap.clone());
+                let mut it = vals.iter();
+                c.call($({ let _ = $pn; it.next().unwrap() },)* $({ let _ = $qk; it.next().unwrap() },)*)
+            },
+        }
+    };
+}
+
+fn macro_templates() -> Vec<MacroTemplate> {
+    vec![
+        mtc!(Mt0Client, "/a/{x}/b", ["x"], []),
+        mtc!(Mt1Client, "/{x}/{y}", ["y", "x"], ["k"]),
+        mtc!(Mt2Client, "/a b/c%d/{x}/e&f/g", ["x"], ["a b", "w+k&=%"]),
+        mtc!(Mt3Client, "", [], ["k", "\u{e9}", "k"]),
+        mtc!(Mt4Client, "/only/literals/here", [], []),
+        mtc!(Mt5Client, "/{x}", ["x"], [""]),
+        mtc!(Mt6Client, "/a//b/{x}", ["x"], []),
+        mtc!(Mt7Client, "/{/{x}/}/{", ["x"], []),
+        mtc!(Mt8Client, "/\u{e9}/{x}/\u{fc}?#", ["x"], ["?#"]),
+        mtc!(Mt9Client, "/a/{x}/b/{y}/c/d/{z}/e", ["z", "x", "y"], ["k", "l"]),
+        mtc!(Mt10Client, "/{x:.+}/q", ["x:.+"], []),
+        mtc!(Mt11Client, "/p/{}/x}{y/t", [""], []),
+        mtc!(Mt12Client, "/r/{x}/s/x", ["x"], ["x"]),
+    ]
+}
+
+/// the template as the statement reads it: split at `/`; `{name}` is a parameter, anything else a constant segment
+fn template_segments(path: &str) -> Vec<Option<String>> {
+    if path.is_empty() {
+        return vec![];
+    }
+    path[1..].split('/').map(|c| if c.len() >= 2 && c.starts_with('{') && c.ends_with('}') { Some(c[1..c.len() - 1].to_string()) } else { None }).collect()
+}
+
+/// derived clients against Model/MacroEmit.lean, and against the statement: one segment per constant component and
+/// per supplied text, each text read back unchanged; one pair per supplied query text under the declared key
+pub fn macro_template_cases(cs: &mut Cases, rng: &mut Rng, tier: Tier, pathless: bool) {
+    let alpha = boundary_alphabet();
+    let rounds = if tier == Tier::Quick { 12 } else { 120 };
+    for (ti, t) in macro_templates().iter().enumerate() {
+        for round in 0..rounds {
+            let nargs = t.path_args.len() + t.query_args.len();
+            let vals: Vec<Vec<String>> = (0..nargs)
+                .map(|i| {
+                    // path arguments mostly one text, sometimes none or several; query arguments any number
+                    let n = if round == 0 { 1 } else if i < t.path_args.len() && rng.chance(2, 3) { 1 } else { rng.below(4) };
+                    (0..n).map(|_| (0..rng.below(4)).map(|_| *rng.pick(&alpha)).collect::<String>()).collect()
+                })
+                .collect();
+            let mut op = format!("macro {}", if t.path.is_empty() { "-".to_string() } else { hex(t.path.as_bytes()) });
+            for (i, n) in t.path_args.iter().chain(t.query_args.iter()).enumerate() {
+                let kind = if i < t.path_args.len() { "P" } else { "Q" };
+                let vs = if vals[i].is_empty() { "-".to_string() } else { vals[i].iter().map(|v| hex(v.as_bytes())).collect::<Vec<_>>().join(",") };
+                op.push_str(&format!(" {}:{}:{}", kind, hex(n.as_bytes()), vs));
+            }
+            let class = format!("macro-template:{}", t.path);
+            let note = format!("#[conjure_client] path = {:?}, path arguments {:?}, query arguments {:?}, texts {:?}", t.path, t.path_args, t.query_args, vals);
+            let cap = UriCapture::default();
+            let call = t.call;
+            let (cap2, vals2) = (cap.clone(), vals.clone());
+            let r = guarded(move || call(&cap2, &vals2).map_err(|e| format!("{:?}", e)));
+            let uri = cap.0.lock().unwrap().clone();
+            // the statement: segments
+            let mut want: Vec<Option<String>> = vec![];
+            for seg in template_segments(t.path) {
+                match seg {
+                    None => want.push(None),
+                    Some(name) => {
+                        // a later argument of the same name replaces an earlier one
+                        if let Some(i) = t.path_args.iter().rposition(|a| *a == name) {
+                            want.extend(vals[i].iter().cloned().map(Some));
+                        }
+                    }
+                }
+            }
+            if want.is_empty() && !pathless {
+                continue;
+            }
+            match (r, uri) {
+                (Ok(Ok(())), Some(uri)) => {
+                    let out = read_back(uri);
+                    cs.push(&class, op, out.line.clone(), true, note);
+                    let consts: Vec<&str> = if t.path.is_empty() { vec![] } else { t.path[1..].split('/').collect() };
+                    let mut ci = consts.iter().filter(|c| !(c.len() >= 2 && c.starts_with('{') && c.ends_with('}')));
+                    let mut bad = None;
+                    if out.segs.len() != want.len() {
+                        bad = Some(format!("{} segments where template and texts prescribe {}", out.segs.len(), want.len()));
+                    } else {
+                        for (got, w) in out.segs.iter().zip(&want) {
+                            match w {
+                                Some(v) => {
+                                    if got != &vec![v.clone()] {
+                                        bad = Some(format!("a parameter segment reads back as {:?}, sent {:?}", got, v));
+                                    }
+                                }
+                                None => {
+                                    let c = ci.next().unwrap();
+                                    if got != &vec![c.to_string()] {
+                                        bad = Some(format!("the constant segment {:?} reads back as {:?}", c, got));
+                                    }
+                                }
+                            }
+                        }
+                    }
+                    let mut exp_pairs: BTreeMap<String, Vec<String>> = BTreeMap::new();
+                    for (j, k) in t.query_args.iter().enumerate() {
+                        let vs = &vals[t.path_args.len() + j];
+                        if !vs.is_empty() {
+                            exp_pairs.entry(k.to_string()).or_default().extend(vs.iter().cloned());
+                        }
+                    }
+                    if bad.is_none() && out.pairs != exp_pairs {
+                        bad = Some(format!("the query reads back as {:?}, sent {:?}", out.pairs, exp_pairs));
+                    }
+                    if bad.is_none() && out.path_and_query.contains('#') {
+                        bad = Some("the URI holds a `#`".to_string());
+                    }
+                    if let Some(b) = bad {
+                        cs.fail_last(&format!("macro-template:{}", ti), format!("{} — {}", b, out.path_and_query));
+                    }
+                }
+                (r, _) => {
+                    let txt = format!("{:?}", r);
+                    cs.push(&class, op, "panic".into(), true, note);
+                    if want.is_empty() {
+                        cs.fail_last("build:panic:request-without-path", format!("a derived method whose template and texts give no path segment at all (`path = \"\"`, or only sequence parameters, all empty) panics in UriBuilder::build: {}", txt));
+                    } else {
+                        cs.fail_last(&format!("macro-template-call:{}", ti), format!("the derived method did not send a request: {}", txt));
+                    }
+                }
+            }
+        }
+    }
 }
 
 pub const RULE: &str = "values = every ASCII byte alone, embedded (a<b>c) and in an injection shape (<b>=x&y); all ordered pairs over a 44-character boundary alphabet (every URI delimiter, sub-delim, control, DEL, 2/3/4-byte code points; quick tier takes a seeded third); empty strings; seeded Unicode strings up to 4 kB; values at and beyond http::Uri's 65534-byte limit. Each value is placed in every parameter position of 5 path/query templates and pushed through the raw and the Plain-typed UriBuilder methods (single, list, optional, set). Real side: UriBuilder + http::Uri + path_param + parse_query_params/query_param; oracle: segment count, each decoded value equals the sent one, pairs per key in order, no '#', no panic. Non-trivial = value contains a non-alphanumeric character; distinct = distinct operation lines.";
